@@ -98,6 +98,7 @@ def make_cases(rng, tier, budget):
         c["sim"] = SC.sim_settings(r, base, r.choice(["exact", "tau_adaptive", "tau_fixed"]), steps=budget.get("session_steps", budget.get("steps")))
         _forms(r, base, c["sim"], session=True)
         c["session"] = SC.gen_session(r, base, c["sim"], grid_share=0.3, sibling_base=sib)
+        SC.add_flag_forms(r, c["session"], share=0.4)      # `exact` / `full_output` as 1 / 0 or numpy.bool_ in some calls (truthiness is what counts)
         c["max_steps"] = budget.get("max_steps", SC.MAX_STEPS)
         cases.append(c)
         n += 1
